@@ -34,6 +34,11 @@ RULE = (
     "_get_queue_for_system, _remove_queue, send_and_waitfor_response, _dispatcher_thread_function}; frames due at the same instant "
     "arrive one by one, back-to-back or in one segment; a quarter of the cases is a focused burst family (immediate replies and "
     "unsolicited primaries at the same instants, nothing afterwards, preemptions in the dispatcher and the receive hand-over). "
+    "Further focused families: a reply that leaves the peer at the very instant the caller's T3 expires followed by further requests (t3-edge), "
+    "the peer's first primaries travelling directly behind its Select.req at a reconnect (eager-reconnect), a handler busy across a reconnect. "
+    "SECS-I variant (task secsi): 1..4 application threads of one SecsIProtocol endpoint request concurrently over the simulated line (multi-block "
+    "requests interleave in the send queue), the other endpoint's application answers in a generated order / in concurrent groups / late / never and "
+    "sends primaries of its own, also with the system bytes of an open request; same routing invariants. "
     "Non-trivial = >=2 requests outstanding simultaneously with replies in a different order, or a late/missing reply, or a "
     "reconnect with traffic on both sides, or a burst of >=2 inbound messages at one instant; distinct by case hash."
 )
@@ -75,7 +80,22 @@ def case_strategy(draw):
     )
     sched["syscnt"] = syscnt
     burst = draw(st.sampled_from(["settled", "separate", "joined"]))
-    family = draw(st.sampled_from(["main"] * 10 + ["slow-handler", "slow-handler", "eager-reconnect", "eager-reconnect", "burst", "burst", "burst", "burst"]))
+    family = draw(st.sampled_from(["main"] * 10 + ["slow-handler", "slow-handler", "eager-reconnect", "eager-reconnect", "burst", "burst", "burst", "burst", "t3-edge", "t3-edge"]))
+    if family == "t3-edge":
+        # focused family: replies that leave the peer at the very instant the caller's T3 expires, each followed by further
+        # requests of the same or another caller; preemptions between the expired wait and the release of the reply queue
+        reqs = []
+        for _ in range(draw(st.integers(1, 3))):
+            calls = [{"act": draw(st.sampled_from(["edge", "edge", "reply", "never"])), "delay": draw(st.sampled_from([0.0, 0.05, 0.5]))} for _ in range(draw(st.integers(2, 3)))]
+            reqs.append({"start": draw(st.sampled_from([0.0, 0.0, 0.01, 0.3])), "calls": calls})
+        if not any(c["act"] == "edge" for r in reqs for c in r["calls"][:-1]):
+            reqs[0]["calls"][0]["act"] = "edge"
+        return {
+            "reqs": reqs, "unsol": [], "drops": [], "stay_down": False,
+            "sched": {"seed": draw(st.integers(1, 2**31)), "switch": draw(st.sampled_from([0.1, 0.5, 0.9])), "pprob": draw(st.sampled_from([0.05, 0.2, 0.4])),
+                      "hot": ["send_and_waitfor_response", "_remove_queue", "_get_queue_for_system", "_on_connection_message_received"], "syscnt": syscnt},
+            "burst": "settled", "handler_sleep": 0.001, "collide": False, "family": "t3-edge",
+        }
     if family == "slow-handler":
         # focused family: an application handler that is still busy while the link drops and comes back; the messages of the new
         # link must wait for it (one at a time, in order). No requesters: their replies would queue behind the slow handler.
@@ -805,6 +825,9 @@ def run_task(name, kw, ctx):
         cls = [f"requesters:{len(case['reqs'])}", f"burst:{case.get('burst', 'settled')}"]
         if case.get("family") == "slow-handler":
             cls.append("family:slow-handler-across-reconnect")
+            nt = True
+        if case.get("family") == "t3-edge":
+            cls.append("family:t3-edge")
             nt = True
         if case.get("family") == "eager-reconnect":
             cls.append("family:eager-reconnect")
